@@ -98,7 +98,7 @@ func runC08(c *an.Ctx) {
 			})
 			c.Check("P2", "token-nonempty@nextToken", r.Pos(), g, "a token other than INVALID must be returned only with a non-empty match (otherwise the lexer does not advance); "+c.WitnessString(w))
 		})
-		c.Floor("P2", "non-INVALID returns in nextToken", n, 2)
+		c.Floor("P2", "non-INVALID returns in nextToken", n, 1)
 	}
 	lex := c.NeedFunc(pkgSyntax, "(*mmLexInfo).Lex")
 	posF := p.Field(pkgSyntax, "mmLexInfo", "pos")
@@ -304,7 +304,7 @@ func c08IncludeGraph(c *an.Ctx) {
 	}
 	sort.Strings(wn)
 	c.Note("recursive walkers over SourceFile.IncludedFrom: %v", wn)
-	c.Floor("P3", "recursive walkers over SourceFile.IncludedFrom", len(walkers), 2)
+	c.Floor("P3", "recursive walkers over SourceFile.IncludedFrom", len(walkers), 1)
 	// does every walker carry a visited set?
 	allVisited := len(walkers) > 0
 	for w := range walkers {
@@ -361,5 +361,5 @@ func c08IncludeGraph(c *an.Ctx) {
 				fmt.Sprintf("an includer edge is added to a file that is already part of the include graph; the walkers %v recurse over these edges without a visited set, so the edge may be added only where the cycle check returned nil (otherwise a cyclic @include makes them recurse forever: stack overflow / endless error text); %s", wn, c.WitnessString(w)))
 		}
 	}
-	c.Floor("P3", "stores to SourceFile.IncludedFrom", n, 2)
+	c.Floor("P3", "stores to SourceFile.IncludedFrom", n, 1)
 }
